@@ -211,6 +211,19 @@ class StmtMixin:
         return out
 
     def on_yield(self, st, v):
+        mode = getattr(self.cur_contract, "generator", True) if getattr(self, "cur_contract", None) is not None else True
+        if mode == "items":
+            g = st.ghost_get("gen_items")
+            st.ghost_set("gen_items", z3.Concat(g, z3.Unit(to_obj_term(v))))
+            st.emit("yield", [v])
+            return
+        if mode == "chunks":
+            if not isinstance(v, VSeq):
+                raise EngineError(f"generator declared to yield sequences yields {v!r}")
+            st.ghost_set("gen_flat", z3.Concat(st.ghost_get("gen_flat"), v.t))
+            st.ghost_set("gen_n", st.ghost_get("gen_n") + 1)
+            st.emit("yield", [v])
+            return
         st.gen_out.append(v)
 
     def st_Return(self, node, st):
